@@ -136,7 +136,10 @@ func (f *Fosite) DefaultClientAuthenticationStrategy(ctx context.Context, r *htt
 			// Do not re-process already enhanced errors
 			var e *jwt.ValidationError
 			if errors.As(err, &e) {
-				if e.Inner != nil {
+				// pass errors on that were raised (as OAuth 2.0 errors) inside the key function; anything else, such as
+				// the library's plain "Token is expired", is a failed client authentication
+				var rfcerr *RFC6749Error
+				if e.Inner != nil && errors.As(e.Inner, &rfcerr) {
 					return nil, e.Inner
 				}
 				return nil, errorsx.WithStack(ErrInvalidClient.WithHint("Unable to verify the integrity of the 'client_assertion' value.").WithWrap(err).WithDebug(err.Error()))
